@@ -564,7 +564,7 @@ def run_property(prop, tier, seed, replay=None):
         for c in prop.cases(rng, tier):
             gen_cases.append(c)
             if len(gen_cases) >= 2000:
-                if rng.random() < 0.5 and len(all_for_reeval) < 400:
+                if len(all_for_reeval) < 400:
                     all_for_reeval.extend(gen_cases[:max(1, int(len(gen_cases) * prop.reeval_fraction))])
                 process(gen_cases)
                 gen_cases = []
@@ -582,6 +582,8 @@ def run_property(prop, tier, seed, replay=None):
     n_re, mism = (0, [])
     if all_for_reeval and not replay:
         sample = all_for_reeval[:600 if tier == 'thorough' else 150]
+        if hasattr(prop, 'expand'):
+            sample = [prop.expand(c) for c in sample]
         exp = runner.run(sample)
         good = [(c, e) for c, e in zip(sample, exp) if e[0] != '!runner-error']
         n_re, mism = coq_reeval([c for c, _ in good], [e for _, e in good])
